@@ -794,7 +794,16 @@ def write_translated(path):
     tab, terrors = py2lean.generate_tab(os.path.join(SRC, "serif"))
     srt, serrors = py2lean.generate_sort(os.path.join(SRC, "serif"))
     rerrors = rerrors + gerrors + aerrors + perrors + nerrors + verrors + terrors + serrors
-    for pth, txt in ((path, text), (os.path.join(os.path.dirname(path), "TranslatedRel.lean"), rel),
+    extra = []
+    import tr
+    for plug in tr.plugins():
+        try:
+            ptxt, perr = plug.generate(os.path.join(SRC, "serif"))
+        except Exception as ex:  # a translator must never take the extraction down
+            ptxt, perr = (f"/- GENERATED: translator {plug.__name__} failed ({type(ex).__name__}) -/\n", [(plug.__name__, f"{type(ex).__name__}: {ex}")])
+        rerrors = rerrors + list(perr)
+        extra.append((os.path.join(os.path.dirname(path), plug.GEN_FILE), ptxt))
+    for pth, txt in tuple(extra) + ((path, text), (os.path.join(os.path.dirname(path), "TranslatedRel.lean"), rel),
                      (os.path.join(os.path.dirname(path), "TranslatedGroup.lean"), grp),
                      (os.path.join(os.path.dirname(path), "TranslatedAlias.lean"), ali),
                      (os.path.join(os.path.dirname(path), "TranslatedRepr.lean"), rep),
